@@ -106,14 +106,19 @@ def load_known(prop):
 
 def unit_matches(entry, unit):
     m = entry.get("match", {})
-    for k, v in m.get("unit", {}).items():
-        uv = unit.get(k) if isinstance(unit, dict) else None
-        if isinstance(v, list):
-            if uv not in v:
+    alts = m.get("unit", {})
+    alts = alts if isinstance(alts, list) else [alts]
+
+    def one(alt):
+        for k, v in alt.items():
+            uv = unit.get(k) if isinstance(unit, dict) else None
+            if isinstance(v, list):
+                if uv not in v:
+                    return False
+            elif uv != v:
                 return False
-        elif uv != v:
-            return False
-    return True
+        return True
+    return any(one(a) for a in alts)
 
 
 def match_known(entry, unit, ob):
